@@ -112,26 +112,26 @@ type entry struct {
 }
 
 type ccase struct {
-	Kind   string               `json:"kind"`
-	Hellos []helloSpec          `json:"hellos,omitempty"`
-	Offers []string             `json:"offers,omitempty"`
-	Certs  map[string]certSpec  `json:"certs,omitempty"`
-	Gen    int                  `json:"gen,omitempty"`
-	Topo   string               `json:"topo,omitempty"`
-	Slots  []string             `json:"slots,omitempty"`
-	Prev   []string             `json:"prev,omitempty"`
-	Dflt   []string             `json:"dflt,omitempty"`
-	Sites  []siteSpec           `json:"sites,omitempty"`
-	Err    string               `json:"err,omitempty"`
-	Loaded []string             `json:"loaded,omitempty"`
-	Tab    []entry              `json:"tab,omitempty"`
+	Kind   string              `json:"kind"`
+	Hellos []helloSpec         `json:"hellos,omitempty"`
+	Offers []string            `json:"offers,omitempty"`
+	Certs  map[string]certSpec `json:"certs,omitempty"`
+	Gen    int                 `json:"gen,omitempty"`
+	Topo   string              `json:"topo,omitempty"`
+	Slots  []string            `json:"slots,omitempty"`
+	Prev   []string            `json:"prev,omitempty"`
+	Dflt   []string            `json:"dflt,omitempty"`
+	Sites  []siteSpec          `json:"sites,omitempty"`
+	Err    string              `json:"err,omitempty"`
+	Loaded []string            `json:"loaded,omitempty"`
+	Tab    []entry             `json:"tab,omitempty"`
 }
 
 // what a mismatch carries (and --replay runs again); wrapped so that the other drivers of C06 find
 // nothing of theirs in the file
 type replayCase struct {
 	Alphabet *ccase `json:"alphabet"`
-	Before   *ccase `json:"before,omitempty"` // reload: the file the instance was started with
+	Before   *ccase `json:"before,omitempty"`  // reload: the file the instance was started with
 	Refused  *ccase `json:"refused,omitempty"` // refused reload: the file Restart is called with
 	Case     *ccase `json:"case"`
 	Only     *entry `json:"only,omitempty"` // the single probe to repeat (nil: the whole table)
@@ -520,7 +520,9 @@ type obs struct {
 	Err   string `json:"error,omitempty"`
 }
 
-func (o obs) core() string { return fmt.Sprintf("%s/%s/%v/%v/%v", o.Out, o.Leaf, o.Name, o.Time, o.Chain) }
+func (o obs) core() string {
+	return fmt.Sprintf("%s/%s/%v/%v/%v", o.Out, o.Leaf, o.Name, o.Time, o.Chain)
+}
 
 // spelled: the ServerName the client is configured with for hello h on listener l.
 func spelled(h helloSpec, l int) string {
